@@ -145,10 +145,11 @@ fn call_at_depth(bytes: usize, f: &mut dyn FnMut()) {
         f();
         return;
     }
-    let mut pad = [0u8; 4096];
-    std::hint::black_box(&mut pad);
-    call_at_depth(bytes.saturating_sub(4096), f);
-    std::hint::black_box(&pad);
+    // a 32 KB frame that is never written: moving the stack pointer is what matters, and untouched pages cost nothing
+    let mut pad = std::mem::MaybeUninit::<[u8; 32768]>::uninit();
+    std::hint::black_box(pad.as_mut_ptr());
+    call_at_depth(bytes.saturating_sub(32768), f);
+    std::hint::black_box(pad.as_ptr());
 }
 
 pub const VCLOCK_MONO_BASE: i64 = 1_000_000 * 1_000_000_000;
@@ -939,6 +940,7 @@ fn spawn_client(sh: &'static Shared, me: usize, start_call: usize) -> std::threa
 
 /// Execute one simulated run in this (freshly forked) process. Never returns.
 pub fn run_child(pool: &Pool, spec: &RunSpec) -> ! {
+    let t_start = std::time::Instant::now();
     silence_stderr();
     // Safety of the 'static casts: the process ends inside this function.
     let pool: &'static Pool = unsafe { &*(pool as *const Pool) };
@@ -1012,6 +1014,7 @@ pub fn run_child(pool: &Pool, spec: &RunSpec) -> ! {
     for i in 0..n {
         handles.push(Some(spawn_client(sh, i, 0)));
     }
+    let us_spawn = t_start.elapsed().as_micros() as u64;
     {
         let mut st = sh.m.lock().unwrap();
         let start = match &spec.policy {
@@ -1102,7 +1105,9 @@ pub fn run_child(pool: &Pool, spec: &RunSpec) -> ! {
                 }
             }
         }
-        let rec = sh.record(&st, "ok", None);
+        let mut rec = sh.record(&st, "ok", None);
+        rec["us_spawn"] = json!(us_spawn);
+        rec["us_total"] = json!(t_start.elapsed().as_micros() as u64);
         proc::item_finish(rec.to_string().as_bytes());
     }
 }
